@@ -136,7 +136,7 @@ Definition upload (a : auth) (c : cfg) (body : bytes) : outcome :=
   match a with AuthSigned => decode c body | _ => Stored body end.
 
 (* ---- line protocol ----
-   input : <auth on|off|anon> <mode S|ST|UT|U> <tname> <body> <payload> <exp_sigs list> <exp_tsig> <exp_ck> <mutation label>
+   input : <auth on|off|anon> <mode S|ST|UT|U> <raw x-amz-trailer value> <body> <payload> <exp_sigs list> <exp_tsig> <exp_ck> <mutation label>
    output: REJECT | STORED P (stored = payload) | STORED <hex> *)
 Definition parse_mode (m : bytes) : option (bool * bool * bool) :=   (* trailer, trailer signed, skip *)
   if bytes_eqb m B"S" then Some (false, false, false)
@@ -161,7 +161,8 @@ Definition run_line (l : bytes) : bytes :=
       do payload <- untok_bytes payload; do sigs <- untok_list sigs; do tsig <- untok_bytes tsig; do ck <- untok_bytes ck;
       let '(tr, trs, sk) := m in
       show_outcome payload
-        (upload a {| has_trailer := tr; trailer_signed := trs; skip_val := sk; tname := tn;
+        (upload a {| has_trailer := tr; trailer_signed := trs; skip_val := sk;
+                     tname := to_lower (trim_space tn);      (* strings.ToLower(strings.TrimSpace(r.Header.Get("x-amz-trailer"))) *)
                      exp_sigs := sigs; exp_tsig := tsig; exp_ck := ck |} body)
   | _ => parse_error
   end.
